@@ -249,11 +249,13 @@ def run(tier):
 
         # ---- Unicode tables (observation only) -------------------------------------------
         t_impl = C.drive(inproc, ["xidtable"])[0].strip()
+        sane = C.drive(inproc, ["sanetable"])[0].strip()
         t_rustc = C.drive_rpf(["xidtable"])[0].strip()
 
         extra = [
             ("correspondence: model of fmt/parsing.rs == working-tree parser on every literal", not corr_bad and lean_ok),
             ("validation: std::fmt grammar model == rustc_parse_format on every derivation", not spec_bad and lean_ok),
+            ("hypotheses `Sane` of the round-trip theorem hold for unicode-xid / char::is_whitespace (all code points): " + sane, sane == "ok"),
         ]
         stats = {
             "literals": len(lits), "derivations": len(derivs), "short_strings": len(short),
